@@ -30,6 +30,9 @@ EXPLANATION += (' ' + "STATE/per-tune (sa/state.py): no attribute that the parse
 TRUSTED = ['music-theory oracle', 're._parser']
 NOT_DECIDED = ['pitch/onset/duration values over token sequences', 'repeat expansion order', 'key spellings outside the module\'s own table (e.g. K:G#) - outside the property\'s quantifier']
 ASSUMPTIONS = []
+# rules whose verdict does not depend on how the statements are arranged (semantic analyses); all other rules are shape rules:
+# when one of those fails in a function that was restructured relative to reference/signatures.json the verdict is "cannot decide"
+ROBUST = ('TAB', 'STATE')
 FLOORS = {'TAB': 140, 'MODE': 8, 'TOKEN': 15, 'CONTAIN': 20, 'KEYERR': 3, 'ACC': 3, 'STATE': 2, 'RHYTHM': 3, 'UNIT': 2}
 
 LETTER_PC = {'C': 0, 'D': 2, 'E': 4, 'F': 5, 'G': 7, 'A': 9, 'B': 11}
